@@ -352,7 +352,13 @@ def rule_T8(tree: Tree) -> RuleResult:
     txt = src(pf.node, 3000)
     ok = "if payload[0] in k:" in txt and "frame = frame_type.get(key)(payload, src_packet)" in txt and "frames.append(frame)" in txt and "payload = payload[frame_length:]" in txt \
         and "frame_length = frame.length" in txt and "while len(payload) != 0:" in txt
-    r.ob(ok, Finding("T8", f"{QF}:parse_frames:dispatch", "parse_frames must select the class whose key contains the first byte, construct it on the remaining payload, append it, and advance by frame.length", m.line(pf.node)))
+    from ..cfg import cfg_of
+    pcfg = cfg_of(pf.node)
+    wl = [n for n in pcfg.nodes if n.kind == "while"]
+    sent = [n for n in pcfg.nodes if n.kind == "stmt" and isinstance(n.ast, ast.Assign) and dotted(n.ast.targets[0]) == "key" and isinstance(n.ast.value, ast.Constant)]
+    scan = [n for n in pcfg.nodes if n.kind == "for" and dotted(n.ast.iter) == "keys"]
+    ok = ok and len(wl) == 1 and len(sent) == 1 and len(scan) == 1 and wl[0].id in sent[0].loops and pcfg.dominates(sent[0].id, scan[0].id)
+    r.ob(ok, Finding("T8", f"{QF}:parse_frames:dispatch", "parse_frames must reset the dispatch key for every frame, select the class whose key contains the first byte, construct it on the remaining payload, append it, and advance by frame.length", m.line(pf.node)))
     # per class layouts
     for cn in sorted(RFC_TYPES):
         if cn == "PaddingFrame":
